@@ -417,6 +417,11 @@ class MaildirWorld(World):
         from pymap.sieve.manage import ManageSieveServer
         from pymap.user import UserMetadata
         global TIME_BASE
+        # mailbox.Maildir numbers its files with a process-wide counter; the
+        # directory listing is sorted by name (Q10 < Q9): start every world
+        # from the same count so that a replayed history sees the same order
+        import mailbox as _mb
+        _mb.Maildir._count = 1
         self.own_root = root is None
         self.root = root or scratch_root()
         self.base_dir = os.path.join(self.root, 'nest', 'a', 'b', 'base')
